@@ -505,6 +505,11 @@ class Built(Shape):
 
     def __init__(self, cls, *args, **kwargs):
         self.cls = cls
+        # used_=True: a LONG-USED object rather than a fresh one - every field that a method of the class other than
+        # __init__ assigns holds, when the function under contract is called, whatever an arbitrary earlier call left
+        # there.  Such a field is replaced by a leftover marker: writing it is fine, reading it before it has been
+        # written in this call makes the function depend on its history (EngineError naming the field - never a pass).
+        self.used = bool(kwargs.pop('used_', False))
         self.args = args
         self.kwargs = kwargs
 
@@ -513,7 +518,34 @@ class Built(Shape):
         alts = [a.alternatives() for a in self.args] + [self.kwargs[k].alternatives() for k in keys]
         out = []
         for combo in itertools.product(*alts):
-            out.append(Built(self.cls, *combo[:len(self.args)], **dict(zip(keys, combo[len(self.args):]))))
+            out.append(Built(self.cls, *combo[:len(self.args)], used_=self.used,
+                             **dict(zip(keys, combo[len(self.args):]))))
+        return out
+
+    @staticmethod
+    def fields_written_outside_init(cls):
+        """names of the attributes of self that methods of cls (other than __init__) assign - from the ast of the class
+        in the working tree"""
+        import ast
+        import inspect
+        import textwrap
+        out = {}
+        for k in cls.__mro__:
+            if k is object or not getattr(k, '__module__', '').startswith('py_ballisticcalc'):
+                continue
+            tree = ast.parse(textwrap.dedent(inspect.getsource(k)))
+            for fn in ast.walk(tree):
+                if not isinstance(fn, (ast.FunctionDef, ast.AsyncFunctionDef)) or fn.name == '__init__' or not fn.args.args:
+                    continue
+                me = fn.args.args[0].arg
+                for n in ast.walk(fn):
+                    tg = n.targets if isinstance(n, ast.Assign) else [n.target] if isinstance(
+                        n, (ast.AugAssign, ast.AnnAssign)) else []
+                    for t in tg:
+                        for e in ast.walk(t):
+                            if isinstance(e, ast.Attribute) and isinstance(e.value, ast.Name) and e.value.id == me \
+                                    and isinstance(e.ctx, ast.Store):
+                                out.setdefault(e.attr, f'{k.__name__}.{fn.name}')
         return out
 
     def _run(self, ctx, args, kwargs, name):
@@ -542,6 +574,14 @@ class Built(Shape):
                 raise EngineError(f'constructor paths of {self.cls.__name__} set different fields')
             for k in fields:
                 fields[k] = ip.ite(SBool(cond), v.fields[k], fields[k])
+        if self.used:
+            from .values import Undefined
+            for fld, where in self.fields_written_outside_init(self.cls).items():
+                if fld.startswith('__') and not fld.endswith('__'):
+                    fld = f'_{self.cls.__name__}{fld}'
+                u = Undefined(f'{name}.{fld}')
+                u.leftover = where
+                fields[fld] = u
         return SObj(self.cls, fields, label=name)
 
     def fresh(self, ctx, name, inputs=False):
@@ -561,7 +601,7 @@ class Built(Shape):
 
     def describe(self):
         cs = [a.describe()[1:] for a in list(self.args) + list(self.kwargs.values()) if isinstance(a, Const)]
-        return self.cls.__name__ + (f'({",".join(cs)})' if cs else '')
+        return self.cls.__name__ + (f'({",".join(cs)})' if cs else '') + ('<used>' if self.used else '')
 
 
 def _unit_list(cls, unit, units):
